@@ -167,7 +167,7 @@ class FaultEnumScenario(WorldScenario):
         if nothing_to_do and w0.cluster is not None:
             # everything is submitted or complete: the scheduler cancels what is in flight, so that the killed
             # runs have something to (re-)submit
-            for j in sorted(w0.cluster.jobs.values(), key=lambda j: int(j.id)):
+            for j in sorted((j for j in w0.cluster.jobs.values() if not j.foreign), key=lambda j: int(j.id)):
                 if not j.foreign and j.phase != "done" and not w0.pending_violation:
                     emit({"op": "sched_cancel", "id": j.id})
         for _ in range(r.pick([1, 2, 2, 3])):
